@@ -82,6 +82,9 @@ func ValidateClientCredentialsRequest(ctx context.Context, request *oidc.ClientC
 	if err != nil {
 		return nil, nil, err
 	}
+	if client.AuthMethod() == oidc.AuthMethodPost && !exchanger.AuthMethodPostSupported() {
+		return nil, nil, oidc.ErrInvalidClient().WithDescription("auth_method post not supported")
+	}
 
 	tokenRequest, err := storage.ClientCredentialsTokenRequest(ctx, request.ClientID, request.Scope)
 	if err != nil {
